@@ -438,6 +438,8 @@ def ref_interpn(points, values, xi, method='linear', bounds_error=True, fill_val
     d = len(points)
     values = _np.asarray(values, dtype=object) if not isinstance(values, _np.ndarray) else values
     xi = _np.asarray(xi, dtype=object) if not isinstance(xi, _np.ndarray) else xi
+    if xi.size == 0:
+        return _np.empty((0,) + values.shape[d:], dtype=object)
     single = (xi.ndim == 1)
     pts = xi.reshape((-1, d)) if not single else xi.reshape((1, d))
     trailing = values.shape[d:]
